@@ -6,6 +6,7 @@
  * and calloc calls are redirected:
  *   - mmap answers come from the script (`maps <base|F> ...`): an address inside a fixed arena (so that the padding
  *     create_pool derives from the ABSOLUTE address is the same in every run and known to the model) or MAP_FAILED;
+ *     (the repaired create_pool pads by the offset inside the block; the code before it by the absolute address);
  *     an exhausted queue is MAP_FAILED.  A handed-out region is filled with 0xA5 (nothing may rely on its contents
  *     beyond what the code itself initialises) and fenced by a page of 0xC5 on either side;
  *   - munmap checks address and length against what was mapped and the fences;
@@ -27,7 +28,7 @@
 #include "cpu_watchdog.h"
 
 #define ARENA_BASE ((uintptr_t)0x200000000000ULL)
-#define ARENA_SIZE ((size_t)64 << 20)
+#define ARENA_SIZE ((size_t)512 << 20)
 #define PAGE 4096
 #define MAXMAP 64
 
@@ -54,7 +55,7 @@ static void *h_mmap(void *addr, size_t len, int prot, int flags, int fd, off_t o
 		add_note(" bad-mmap-args");
 	if (mq_pos >= mq_len || mq[mq_pos].fail) { if (mq_pos < mq_len) mq_pos++; errno = ENOMEM; return MAP_FAILED; }
 	b = mq[mq_pos++].base;
-	if (b % PAGE || b < ARENA_BASE + PAGE || b + len + PAGE > ARENA_BASE + ARENA_SIZE || len > (1u << 20) || nmaps >= MAXMAP * 4) {
+	if (b % PAGE || b < ARENA_BASE + PAGE || b + len + PAGE > ARENA_BASE + ARENA_SIZE || len > ((size_t)80 << 20) || nmaps >= MAXMAP * 4) {
 		add_note(" script-error:base-outside-arena"); errno = ENOMEM; return MAP_FAILED;
 	}
 	for (i = 0; i < nmaps; ++i)
@@ -196,7 +197,7 @@ int main(void)
 		if (nt == 0) { emit("bad-op"); continue; }
 		if (!strcmp(tok[0], "create") && (nt == 2 || (nt == 3 && !strcmp(tok[2], "F"))) && mem == NULL) {
 			unsigned long long o = strtoull(tok[1], NULL, 10);
-			if (o == 0 || o > ((size_t)1 << 40)) { emit("bad-op"); continue; }      /* obj_size 0: SIGFPE in the real code (model: sigfpe) */
+			if (o == 0 || o > ((size_t)1 << 21)) { emit("bad-op"); continue; }      /* obj_size 0: SIGFPE in the real code (model: sigfpe) */
 			calloc_fail = nt == 3;
 			mem = mem_pool_create((size_t)o);
 			nhanded = 0; next_id = 0;
